@@ -110,6 +110,7 @@ type PathRec struct {
 	LP    uint32   `json:"lp"`
 	ASLen int      `json:"aslen"`
 	ASN   []uint32 `json:"asn,omitempty"` // explicit AS path (overrides ASLen)
+	NAS   int      `json:"nas,omitempty"` // neighbour AS class (first AS of the generated AS path)
 	Orig  uint8    `json:"origin"`
 	MED   uint32   `json:"med"`
 	EBGP  bool     `json:"ebgp"`
@@ -134,6 +135,9 @@ func (r PathRec) Build(v6 bool) *route.Path {
 		asns = make([]uint32, r.ASLen)
 		for i := range asns {
 			asns[i] = 65000 + uint32(i)
+		}
+		if r.NAS > 0 && len(asns) > 0 {
+			asns[0] = 64000 + uint32(r.NAS) // the neighbour AS
 		}
 	}
 	b := &route.BGPPath{
